@@ -420,7 +420,7 @@ impl HalfConnection {
                     let packet_ref = packet_rc.borrow();
 
                     if packet_ref.fragment_acknowledged(entry.fragment_ref.fragment_id) {
-                        self.resend_queue.pop();
+                        self.pending_queue.pop_front();
                         continue;
                     }
 
@@ -437,7 +437,9 @@ impl HalfConnection {
                         self.resend_queue.push(resend_queue::Entry::new(entry.fragment_ref, now_ms + rtt_ms, 1));
                     }
                 } else {
-                    self.resend_queue.pop();
+                    // The packet has left the send window (acknowledged past by the receiver)
+                    // before this fragment was first sent: discard the entry at hand
+                    self.pending_queue.pop_front();
                     continue;
                 }
             }
